@@ -4,26 +4,64 @@ use cfgrammar::yacc::{YaccGrammar, YaccKind};
 use cfgrammar::PIdx;
 use serde_json::{json, Value};
 
-pub fn run(src: &str, times: usize) -> Outcome {
-    let expected = "identical production numbering on every build".to_string();
-    let sig = |g: &YaccGrammar<u32>| -> Vec<String> {
-        (0..usize::from(g.prods_len())).map(|p| g.pp_prod(PIdx(p as u32))).collect()
-    };
-    let first = match YaccGrammar::<u32>::new_with_storaget(YaccKind::Eco, src) { Ok(g) => sig(&g), Err(_) => return Outcome { fails: false, observed: "not a grammar".into(), expected } };
+fn signature(g: &YaccGrammar<u32>) -> Vec<String> {
+    let mut v: Vec<String> = Vec::new();
+    for t in g.iter_tidxs() {
+        v.push(format!("token {} = {:?} prec {:?} epp {:?} avoid {}", usize::from(t), g.token_name(t), g.token_precedence(t), g.token_epp(t), g.avoid_insert(t)));
+    }
+    for r in g.iter_rules() { v.push(format!("rule {} = {} prods {:?}", usize::from(r), g.rule_name_str(r), g.rule_to_prods(r).iter().map(|p| usize::from(*p)).collect::<Vec<_>>())); }
+    for p in 0..usize::from(g.prods_len()) { v.push(format!("prod {} = {} prec {:?}", p, g.pp_prod(PIdx(p as u32)), g.prod_precedence(PIdx(p as u32)))); }
+    v.push(format!("implicit rule {:?}", g.implicit_rule().map(usize::from)));
+    v
+}
+
+pub fn run_kind(kind: YaccKind, src: &str, times: usize) -> Outcome {
+    let expected = "identical numbering of tokens, rules and productions on every build".to_string();
+    let first = match YaccGrammar::<u32>::new_with_storaget(kind.clone(), src) { Ok(g) => signature(&g), Err(_) => return Outcome { fails: false, observed: "not a grammar".into(), expected } };
     for k in 1..times {
-        let g = YaccGrammar::<u32>::new_with_storaget(YaccKind::Eco, src).unwrap();
-        let s = sig(&g);
+        let g = YaccGrammar::<u32>::new_with_storaget(kind.clone(), src).unwrap();
+        let s = signature(&g);
         if s != first {
-            let d = (0..s.len()).find(|&i| s[i] != first[i]).unwrap();
-            return Outcome { fails: true, observed: format!("build {}: production {} is `{}`, in the first build it was `{}`", k, d, s[d], first[d]), expected };
+            let d = (0..s.len().min(first.len())).find(|&i| s[i] != first[i]).unwrap_or(0);
+            return Outcome { fails: true, observed: format!("build {}: `{}`, in the first build `{}`", k, s.get(d).cloned().unwrap_or_default(), first.get(d).cloned().unwrap_or_default()), expected };
         }
     }
     Outcome { fails: false, observed: format!("{} identical builds", times), expected }
 }
 
-pub fn search(_tag: &str, _tier: &str) -> Option<Value> {
+pub fn run(src: &str, times: usize) -> Outcome {
+    let o = run_kind(YaccKind::Eco, src, times);
+    if o.fails { return o; }
+    run_kind(YaccKind::Original(cfgrammar::yacc::YaccOriginalActionKind::NoAction), src, times)
+}
+
+/// a grammar with a random selection of declarations (used and unused tokens in each of them)
+fn random_decls(seed: u64) -> String {
+    let mut r = crate::grms::Rng(seed.wrapping_mul(0x9E3779B97F4A7C15) | 1);
+    let names = ["'a'", "'b'", "'c'", "'d'", "'e'", "'f'", "'g'", "'h'"];
+    let plain = ["a", "b", "c", "d", "e", "f", "g", "h"];
+    let mut s = String::from("%start S\n");
+    if r.below(2) == 0 { s.push_str("%token"); for _ in 0..1 + r.below(3) { s.push(' '); s.push_str(names[r.below(8)]); } s.push('\n'); }
+    let kinds = ["%left", "%right", "%nonassoc"];
+    for _ in 0..r.below(4) { s.push_str(kinds[r.below(3)]); for _ in 0..1 + r.below(3) { s.push(' '); s.push_str(names[r.below(8)]); } s.push('\n'); }
+    if r.below(3) == 0 { s.push_str("%avoid_insert"); for _ in 0..1 + r.below(3) { s.push(' '); s.push_str(names[r.below(8)]); } s.push('\n'); }
+    if r.below(3) == 0 { s.push_str("%implicit_tokens"); for _ in 0..1 + r.below(3) { s.push_str(" i"); s.push_str(plain[r.below(8)]); } s.push('\n'); }
+    if r.below(3) == 0 { s.push_str(&format!("%epp {} \"x\"\n", plain[r.below(4)])); }
+    s.push_str("%%\nS: ");
+    for p in 0..1 + r.below(3) { if p > 0 { s.push_str(" | "); } for _ in 0..r.below(4) { if r.below(4) == 0 { s.push_str("S "); } else { s.push_str(names[r.below(4)]); s.push(' '); } } }
+    s.push_str(";\n");
+    s
+}
+
+pub fn search(_tag: &str, tier: &str) -> Option<Value> {
     for g in ["%start S\n%implicit_tokens ws nl tab cr\n%%\nS: 'x' 'y';", "%start S\n%implicit_tokens a b\n%%\nS: 'x';"] {
         let o = run(g, 200);
+        if o.fails { return Some(witness("c15_numbering", json!({"grammar": g}), &o)); }
+    }
+    let n = if tier == "thorough" { 6000 } else { 600 };
+    for seed in 1..=n {
+        let g = random_decls(seed);
+        let o = run(&g, 24);
         if o.fails { return Some(witness("c15_numbering", json!({"grammar": g}), &o)); }
     }
     None
